@@ -127,7 +127,8 @@ class E1:
             if a is not None:
                 for r in self.recs:
                     if r.asset == a and r.state == 'p':
-                        r.time += env.now - r.paused_at
+                        # original + length of the pause; a resumed event is never due before now (rounding)
+                        r.time = max(env.now, r.time + (env.now - r.paused_at))
                         r.state, r.paused_at = 'q', None
         elif k == 'c':
             a = op[1]
